@@ -116,6 +116,7 @@ def decFn2 (j : Json) : Except String Fn2 := do
   | [.str "last"] => pure .last
   | [.str "raise_if_mod", k, r] => do let n ← getNat k; if n = 0 then throw "bad-case" else pure (.raiseIfMod n (← getNat r))
   | [.str "pair_last"] => pure .pairLast
+  | [.str "append_fst"] => pure .appendFst
   | _ => throw "bad-case: fn2"
 
 def decOptFn1 (j : Json) : Except String Fn1 :=
